@@ -15,8 +15,13 @@ STREAM_STATELESS = {"merkle": True, "addr": False}
 
 PROPS = {
     "C01": {
-        "module": "GoatProofs.C01",
+        "module": ["GoatProofs.C01", "GoatProofs.C01S"],
         "theorems": [
+            "Goat.C01S.methods_prefix_free", "Goat.C01S.preimage_injective", "Goat.C01S.signDoc_binds_or_collision",
+            "Goat.C01S.signDoc_binds_all_or_collision", "Goat.C01S.newBlocks_doc_binds_or_collision", "Goat.C01S.newPubkey_doc_binds_or_collision",
+            "Goat.C01S.processWithdrawal_doc_binds_or_collision", "Goat.C01S.replaceWithdrawal_doc_binds_or_collision",
+            "Goat.C01S.newConsolidation_doc_binds_or_collision", "Goat.C01S.processWithdrawal_accepted_signed_over",
+            "Goat.C01S.newBlockHashes_ok_validated", "Goat.C01S.newPubkey_ok_validated", "Goat.C01S.ideal_hash_hyps_inconsistent",
             "Goat.C01.threshold_spec",
             "Goat.C01.C01_accept_sound",
             "Goat.C01.C01_no_quorum_rejected",
@@ -122,8 +127,9 @@ PROPS = {
                         "address decoding is a parameter of the model (tied in C17); fee-rate comparison modelled in exact integers (DESIGN section 7)"],
     },
     "C06": {
-        "module": ["GoatProofs.C06", "GoatProofs.C08"], "facts": True,
-        "theorems": ["Goat.C06.consecutive_number", "Goat.C06.btc_dequeue_spec", "Goat.C06.blockhashes_gapfree", "Goat.C06.locking_dequeue_spec", "Goat.C08.verifyDequeue_exact"],
+        "module": ["GoatProofs.C06", "GoatProofs.C08", "GoatProofs.C06H"], "facts": True,
+        "theorems": ["Goat.C06H.fifo_deposits", "Goat.C06H.fifo_paid", "Goat.C06H.fifo_rejected", "Goat.C06H.fifo", "Goat.C06H.handed_prefix", "Goat.C06H.drained_all_handed", "Goat.C06H.nonces_consecutive", "Goat.C06H.nonce_at", "Goat.C06H.nonce_injective", "Goat.C06H.caps", "Goat.C06H.block_cursor", "Goat.C06H.proposal_deterministic", "Goat.C06H.newDeposits_appends", "Goat.C06H.finalizeWithdrawal_appends", "Goat.C06H.approveCancellation_appends", "Goat.C06H.processBridgeRequest_appends", "Goat.C06H.C06_run", "Goat.C06H.locking_fifo_rewards", "Goat.C06H.locking_fifo_unlocks", "Goat.C06H.locking_nonces_consecutive", "Goat.C06H.locking_caps", "Goat.C06H.C06_locking_run", "Goat.C06H.claim_appends", "Goat.C06H.beginBlock_appends",
+                     "Goat.C06.consecutive_number", "Goat.C06.btc_dequeue_spec", "Goat.C06.blockhashes_gapfree", "Goat.C06.locking_dequeue_spec", "Goat.C08.verifyDequeue_exact"],
         "streams": [{"name": "bitcoin", "quick": 2000, "thorough": 30000, "seeds": 16}, {"name": "locking", "quick": 1500, "thorough": 20000, "seeds": 8},
                     {"name": "app-proposal", "quick": 700, "thorough": 4000, "seeds": 6},
                     {"name": "relayer", "quick": 1500, "thorough": 12000, "seeds": 8}],
@@ -147,8 +153,8 @@ PROPS = {
         "assumptions": [],
     },
     "C02": {
-        "module": "GoatProofs.C02", "facts": True,
-        "theorems": ["Goat.C02.verify_then_consume", "Goat.C02.newBlockHashes_consumes", "Goat.C02.newConsolidation_consumes", "Goat.C02.newPubkey_consumes", "Goat.C02.processWithdrawal_consumes", "Goat.C02.replaceWithdrawal_consumes",
+        "module": ["GoatProofs.C02", "GoatProofs.C01S"], "facts": True,
+        "theorems": ["Goat.C01S.signDoc_binds_or_collision", "Goat.C01S.signDoc_binds_all_or_collision", "Goat.C02.verify_then_consume", "Goat.C02.newBlockHashes_consumes", "Goat.C02.newConsolidation_consumes", "Goat.C02.newPubkey_consumes", "Goat.C02.processWithdrawal_consumes", "Goat.C02.replaceWithdrawal_consumes",
                      "Goat.C02.nonProposal_keeps_seq", "Goat.C02.acceptProposer_keeps_seq", "Goat.C02.endBlocker_keeps_seq", "Goat.C02.processRequest_keeps_seq",
                      "Goat.C02.accept_needs_current_seq", "Goat.C02.stale_vote_rejected", "Goat.C02.other_epoch_rejected", "Goat.C02.reach_seq_mono",
                      "Goat.C02.accepted_vote_never_again", "Goat.C02.code_writers_closed",
@@ -192,8 +198,9 @@ PROPS = {
         "assumptions": ["the execution client's verdict on the payload is a scripted answer of the fake engine", "transaction decoding (protobuf, RLP of system transactions) is the real code's; the model sees canonical texts"],
     },
     "C09": {
-        "module": "GoatProofs.C09",
-        "theorems": ["Goat.C09.head_only_by_child", "Goat.C09.nil_payload_rejected", "Goat.C09.finalized_exact", "Goat.C09.uncommitted_block_restores_prestate",
+        "module": ["GoatProofs.C09", "GoatProofs.C09H"],
+        "theorems": ["Goat.C09H.head_chain", "Goat.C09H.head_chain_strong", "Goat.C09H.history_chain", "Goat.C09H.run_preserves", "Goat.C09H.head_number_monotone", "Goat.C09H.head_number_monotone_committed", "Goat.C09H.no_sibling", "Goat.C09H.no_ancestor", "Goat.C09H.only_ethblock_ops_move_head", "Goat.C09H.end_op_keeps_or_restores", "Goat.C09H.end_op_uncommitted_restores", "Goat.C09H.ethblock_op_moves_to_child", "Goat.C09H.beacon_root_step", "Goat.C09H.beacon_root_tracks", "Goat.C09H.beacon_root_tracks_committed", "Goat.C09H.example_history",
+                     "Goat.C09.head_only_by_child", "Goat.C09.nil_payload_rejected", "Goat.C09.finalized_exact", "Goat.C09.uncommitted_block_restores_prestate",
                      "Goat.C09.engine_fault_not_committed", "Goat.C09.committed_needs_engine_ok", "Goat.C09.head_becomes_payload",
                      "Goat.C09.head_unchanged_on_failure", "Goat.C09.only_ethblock_moves_head",
                      "Goat.C09.runTx_keeps_snap", "Goat.C09.txs_keep_snap", "Goat.C09.retry_equals_fault_free"],
@@ -212,17 +219,18 @@ PROPS = {
                         "the list of registered sdk.Msg implementations is read from the real interface registry of app.New on every run (msgreg) and the ante chain order from the source (factgen)"],
     },
     "C18": {
-        "module": "GoatProofs.C18",
-        "theorems": ["Goat.C18.initGenesisCore_spec", "Goat.C18.initGenesis_establishes_Derived", "Goat.C18.derived_unique", "Goat.C18.import_export",
+        "module": ["GoatProofs.C18", "GoatProofs.C18B"],
+        "theorems": ["Goat.C18B.initGenesis_ok_iff", "Goat.C18B.btc_import_export", "Goat.C18B.btc_export_import", "Goat.C18B.BReproduces.content", "Goat.C18B.hashes_below_gap_are_lost", "Goat.C18B.tip_hash_missing_blocks_import", "Goat.C18B.btcRoundTripOk_iff", "Goat.C18B.btcRoundTripOk_of", "Goat.C18B.btcRoundTripOk_iff_BWf", "Goat.C18B.goat_export_import", "Goat.C18B.goat_import_export", "Goat.C18B.goatRoundTripOk_iff", "Goat.C18B.depLt_is_store_order", "Goat.C18B.newBlockHashes_keeps_hash_clauses", "Goat.C18B.c18b_round_trip", "Goat.C18B.Finding.runtime_tax_params_block_import", "Goat.C18B.Finding.export_import_needs_BWf", "Goat.C18B.Finding.duplicate_ids_accepted_silently", "Goat.C18B.Finding.max_tip_cannot_be_reexported",
+                     "Goat.C18.initGenesisCore_spec", "Goat.C18.initGenesis_establishes_Derived", "Goat.C18.derived_unique", "Goat.C18.import_export",
                      "Goat.C18.Reproduces.exact", "Goat.C18.export_import", "Goat.C18.initRelayer_ok_iff", "Goat.C18.relayer_import_export",
                      "Goat.C18.RReproduces.queue", "Goat.C18.relayer_export_import", "Goat.C18.derivedOk_iff", "Goat.C18.queueOk_iff",
                      "Goat.C18.lockingRoundTripOk_of", "Goat.C18.relayerRoundTripOk_of", "Goat.C18.roundTripOk_of", "Goat.C18.c18_round_trip_partial",
                      "Goat.C18.Finding.duplicate_key_hash_blocks_import", "Goat.C18.Finding.boarding_order_changes_next_proposer"],
         "streams": [{"name": "app-export", "quick": 700, "thorough": 5000, "seeds": 12}],
         "assumptions": ["reachable states satisfy the invariants the round-trip theorems assume (Derived, WfState, RImportable, QueueDerived): on every export of the streams the model evaluates the executable round-trip check on the current state and the verdict is compared with the real application's export -> InitChain -> export",
-                        "the bitcoin and goat modules' genesis functions are not modelled in Lean: their round trip is decided by the real export/import in the stream only",
+                        "bitcoin and goat genesis (GoatModel.GenesisBtc): well-formedness BWf (valid params, registered key, 32-byte hashes forming a gap-free range ending at the tip, duplicate-free keys) is proved exact for the round trip (btcRoundTripOk_iff_BWf); that reachable states satisfy it is carried by C06/C20 step theorems plus the per-export executable check whose verdict (br=) is compared with the real application's",
                         "queries are functions of the module collections; all collections of the four modules are compared"],
-        "partial": "'for any reachable state' is carried by the invariants' preservation (C13/C16) plus the per-export executable check, not by one end-to-end theorem; bitcoin/goat genesis are tied differentially only",
+        "partial": "'for any reachable state' is carried by the invariants' preservation (C13/C16) plus the per-export executable check, not by one end-to-end theorem",
     },
     "C19": {
         "module": "GoatProofs.C19",
